@@ -583,6 +583,144 @@ def section_threading(ctx) -> None:
                     {'section': 'thr', 'log': log}, {'kind': 'second_reader_threading'})
 
 
+
+# ------------------------------------------------------------- section thrmodel
+THR_HEADER = ('From PV Require Import Base.Prelude Sync.RWLock Sync.ThreadRWLock '
+              'Sync.ThreadRWLockCheck.\n')
+
+
+def enc_tprogs(progs) -> str:
+    return T.lst(T.lst(f'(mkSect {"KR" if k == "R" else "KW"} {T.boolean(x)})' for k, x in p)
+                 for p in progs)
+
+
+def view_nums(view) -> list[int]:
+    """the view of Sync/ThreadRWLockCheck.v view_of"""
+    c = view['counter']
+    c = c if isinstance(c, int) and 0 <= c < 1000 else 1000
+    mask = 0
+    for t in view['enabled']:
+        mask |= 1 << t
+    return [c, int(view['rl']) + 2 * int(view['wl']) + 4 * mask] + [min(x, 31) for x in view['codes']]
+
+
+def _nl(ns) -> str:
+    return '[' + ';'.join(str(x) for x in ns) + ']'
+
+
+def enc_node(depth: int, t: int, view) -> str:
+    return _nl([depth, t] + view_nums(view))
+
+
+def enc_ttree(tree) -> str:
+    """the exploration tree in preorder, one short list of small numbers per transition"""
+    out = []
+    # children are pushed in reverse so that the preorder follows the recorded order
+    todo = [((), k) for k in reversed(range(len(tree.get((), []))))]
+    while todo:
+        prefix, k = todo.pop()
+        t, view = tree[prefix][k]
+        out.append(enc_node(len(prefix), t, view))
+        child = prefix + (t,)
+        kids = tree.get(child, [])
+        for kk in reversed(range(len(kids))):
+            todo.append((child, kk))
+    return '([' + ';'.join(out) + ']%N)' if out else '(@nil (list N))'
+
+
+def thr_configs(ctx):
+    """thread programs: lists of (kind, body raises)"""
+    R, W, Rx, Wx = ('R', False), ('W', False), ('R', True), ('W', True)
+    one_two = [[R], [W], [R, R], [R, W], [W, R], [W, W]]
+    cfgs = []
+    # 2 threads: every pair of programs of <= 2 sections
+    for i, a in enumerate(one_two):
+        for b in one_two[i:]:
+            cfgs.append([a, b])
+    # ... with bodies that raise
+    cfgs += [[[Rx, R], [W, R]], [[Wx], [R, W]], [[Rx, W], [Rx, R]], [[W, Rx], [Wx, R]],
+             [[R, Rx], [R, Wx]]]
+    # 3 threads, one section each, with and without raising bodies; 4 threads
+    cfgs += [[[R], [R], [W]], [[R], [W], [W]], [[Rx], [R], [W]], [[Rx], [Rx], [Wx]],
+             [[R], [W], [W], [W]]]
+    if ctx.quick:
+        return cfgs
+    return cfgs + [
+        [[R], [R], [R]], [[W], [W], [W]], [[R], [Wx], [W]], [[R], [R], [W], [W]],
+        [[R, W], [W, R], [R]], [[R, R], [R, W], [W]], [[W, R], [W, W], [R]], [[Rx, W], [R, R], [W, Rx]],
+        [[R], [R], [R], [W]], [[Rx], [R], [Wx], [W]], [[R, R], [W], [R], [W]],
+    ]
+
+
+def _tree_paths(tree, limit: int = 2000):
+    """root-to-leaf paths of an exploration tree as lists of (t, view)"""
+    out = []
+    stack = [((), [])]
+    while stack and len(out) < limit:
+        prefix, acc = stack.pop()
+        kids = tree.get(prefix)
+        if not kids:
+            if acc:
+                out.append((prefix, acc))
+            continue
+        for t, view in kids:
+            stack.append((prefix + (t,), acc + [(t, view)]))
+    return out
+
+
+def section_thrmodel(ctx) -> None:
+    """the real _ThreadingReadWriteLock under the deterministic thread scheduler
+    (harness/thrdrv.py): every schedule of every configuration, each executed
+    transition compared with Sync/ThreadRWLock.v inside Coq; monitors on every
+    reached state of the real object"""
+    import multiprocessing
+    from concurrent.futures import ProcessPoolExecutor
+    from ..thrdrv import explore
+    cfgs = thr_configs(ctx)
+    mp = multiprocessing.get_context('spawn')
+    with ProcessPoolExecutor(max_workers=min(8, len(cfgs)), mp_context=mp) as ex:
+        results = list(ex.map(explore, cfgs))
+    terms, stats = [], []
+    failed_cfg = set()
+    for ci, (progs, (root, tree, n_states, n_trans, failures)) in enumerate(zip(cfgs, results)):
+        stats.append({'programs': repr(progs), 'states': n_states, 'transitions': n_trans})
+        ctx.count(('thr', repr(progs)), nontrivial=True)
+        ctx.evaluations += n_trans
+        for prefix, view, (clause, kind, text) in failures[:3]:
+            failed_cfg.add(ci)
+            ctx.failure(clause, f'threading read-write lock: {text} (programs {progs}, schedule '
+                        f'{list(prefix)})',
+                        {'section': 'thrmodel', 'programs': progs, 'schedule': list(prefix)},
+                        {'kind': kind})
+        terms.append(f'({enc_tprogs(progs)}, {_nl(view_nums(root))}%N, {enc_ttree(tree)})')
+    ctx.extra['thr_exploration'] = stats
+    ctx.sample({'thr_programs': repr(cfgs[-1]), 'states': stats[-1]['states'],
+                'transitions': stats[-1]['transitions']})
+    bad = ctx.run_cases('thr_rwlock', THR_HEADER,
+                        'list (list sect) * list N * list (list N)', terms, 'chk_thr_tree', shard=1)
+    ctx.corr[-1].update({'cases': sum(x['transitions'] for x in stats),
+                         'configurations': len(terms)})
+    for ci in bad[:3]:
+        progs = cfgs[ci]
+        tree = results[ci][1]
+        paths = _tree_paths(tree)
+        pterms = []
+        for prefix, acc in paths:
+            nodes = ';'.join(enc_node(d, t, v) for d, (t, v) in enumerate(acc))
+            pterms.append(f'({enc_tprogs(progs)}, {_nl(view_nums(results[ci][0]))}%N, ([{nodes}]%N))')
+        bad_paths = ctx.run_cases(f'thr_rwlock_paths_{ci}', THR_HEADER,
+                                  'list (list sect) * list N * list (list N)', pterms, 'chk_thr_tree')
+        if ci in failed_cfg:
+            ctx.broken.append(f'correspondence thr_rwlock: runs of the real _ThreadingReadWriteLock '
+                              f'with programs {progs} are not behaviours of the model '
+                              f'({len(bad_paths)} schedules; a monitor failed on this configuration too)')
+            continue
+        for j in bad_paths[:3]:
+            ctx.disagreement('thr_rwlock', {'programs': repr(progs),
+                                            'schedule': repr(list(paths[j][0]))})
+        if not bad_paths:
+            ctx.disagreement('thr_rwlock', {'programs': repr(progs), 'what': 'tree does not replay'})
+
 # --------------------------------------------------------------------- main
 def run(ctx) -> None:
     ctx.rule = ('every schedule (all interleavings, pruned at repeated glass-box states) of small '
@@ -594,12 +732,14 @@ def run(ctx) -> None:
         'FileLock steps are atomic between suspension points (single event loop); cross-process '
         'races on an expired lock file are outside the model',
     ]
-    ctx.check_proofs(['Sync/RWLockCheck', 'Sync/FileLockCheck'])
+    ctx.check_proofs(['Sync/RWLockCheck', 'Sync/FileLockCheck', 'Sync/ThreadRWLockCheck'])
     algo = os.environ.get('VERIF_C20_ALGO', 'Fixed')
-    section_rw(ctx, algo)
-    section_fl(ctx)
-    section_ww(ctx)
-    section_threading(ctx)
+    only = [x for x in os.environ.get('VERIF_C20_SECTIONS', '').split(',') if x]   # development aid
+    for name, fn in (('rw', lambda: section_rw(ctx, algo)), ('fl', lambda: section_fl(ctx)),
+                     ('ww', lambda: section_ww(ctx)), ('thr', lambda: section_threading(ctx)),
+                     ('thrmodel', lambda: section_thrmodel(ctx))):
+        if not only or name in only:
+            fn()
     ctx.exhaustive = True
 
 
@@ -627,6 +767,19 @@ def replay(ctx, data) -> int:
     if data.get('section') == 'ww':
         from ..pymap_env import run as arun
         print(arun(ww_one(data['cls'], data['existed'], data['body'], data['fault']), timeout=30))
+        return 0
+    if data.get('section') == 'thrmodel':
+        from ..thrdrv import ThrRun, thr_monitor
+        progs = [[(k, bool(x)) for k, x in p] for p in data['programs']]
+        r = ThrRun(progs)
+        print('start', r.view())
+        for t in data['schedule']:
+            rec = r.step(int(t))
+            v = rec['view']
+            print('thread', t, '-> counter', v['counter'], 'read mutex', v['rl'], 'write mutex',
+                  v['wl'], 'next operations', v['pending'], 'status', v['status'])
+            print('   monitor:', thr_monitor(v, not v['enabled']))
+        r.close()
         return 0
     if data.get('section') == 'thr':
         section_threading(ctx)
